@@ -151,6 +151,18 @@ CLAIMED = {
              "wavelength-product scaling on a sample.",
         note="Lattice scope: equal ground diameters, cone factors 1 and 1/2. Trusted in the physical run: scipy.special.kv/gamma, "
              "LAPACK eigvalsh. The 'snapshot' variant of the model (code as first read) violates EntryIsDef - kept as a self-test."),
+    "C03": dict(
+        engine="tlc+replay+trace", design_ref="DESIGN.md §3 C03",
+        technique="TLA+ spec CovSched.tla: pool of k workers, independently enabled Start/Finish (every completion order), ordered Gather (pool.map), positional Consume, per-block accumulation ORDER as the meaning of bit-identity, rebuild histories with thread-count toggles; SameAsSequential/NoCarryOver/EveryTaskConsumedOnce and liveness checked by TLC; every build record replayed into the real class through a controlled pool that realises the scripted completion order; real-pool worker traces validated by CovSchedTrace.tla",
+        text="All interleavings of 3 (6) tasks x 2 layers on 1..3 (1..4) workers and all rebuild histories of length <= 3 (2) are "
+             "explored; each of the 689 build records (worker count, completion order per layer, earlier thread counts) is executed "
+             "on the real class with `slopecovariance.multiprocessing` replaced by a deterministic pool implementing map/map_async/"
+             "imap/imap_unordered/starmap/apply_async/ready/get, under three cross-layer completion rankings, and must be "
+             "bit-identical (tobytes) to a fresh single-process build - including an off-axis NGS whose positions must not carry "
+             "over between builds; 6 (60) real pools with injected per-task delays add recorded worker traces.",
+        note="Model bugs (unordered collection, matrix not re-zeroed) are rejected by TLC (self-test). Real-pool traces that the model "
+             "does not explain but whose matrix is bit-identical are recorded as impl_drift, not as violations (the property is about "
+             "the result)."),
 }
 
 NOT_APPLICABLE = {
